@@ -2,7 +2,7 @@
 // entries; D = P A Q, P P^-1 = I, Q Q^-1 = I, D diagonal with non-zero entries first, normalised and
 // each dividing the next.  (nalgebra is outside Kani's reach: native replay only.)
 use super::src::*;
-use crate::{ob, reach};
+use crate::{ob, pre, reach};
 use yui_matrix::dense::{snf::snf, Mat};
 pub fn snf_small(s: &mut Src) -> R {
     let mut e = [0i64; 9];
@@ -21,4 +21,56 @@ pub fn snf_small(s: &mut Src) -> R {
     ob!((v[1] == 0 || v[1] % v[0] == 0) && (v[2] == 0 || v[2] % v[1] == 0), "snf::each-entry-divides-the-next");
     Ok(())
 }
-crate::harness_table!(SNF: snf_small [unwind 4]);
+
+// C10 (LLL) — witness search / replay on the real crate: 3x3 integer matrices of full rank, small
+// entries.  B = P A with det P = +-1, B size-reduced (|mu_ij| <= 1/2) and Lovasz-reduced for alpha = 3/4,
+// checked with exact rational Gram-Schmidt in i128.
+use yui_matrix::dense::lll::lll;
+#[derive(Clone, Copy, Debug)]
+struct Fr(i128, i128);
+fn g(a: i128, b: i128) -> i128 { let (mut a, mut b) = (a.abs(), b.abs()); while b != 0 { let t = a % b; a = b; b = t; } a }
+impl Fr {
+    fn new(n: i128, d: i128) -> Fr { let s = if d < 0 { -1 } else { 1 }; let k = g(n, d).max(1); Fr(s * n / k, s * d / k) }
+    fn add(self, o: Fr) -> Fr { Fr::new(self.0 * o.1 + o.0 * self.1, self.1 * o.1) }
+    fn sub(self, o: Fr) -> Fr { Fr::new(self.0 * o.1 - o.0 * self.1, self.1 * o.1) }
+    fn mul(self, o: Fr) -> Fr { Fr::new(self.0 * o.0, self.1 * o.1) }
+    fn div(self, o: Fr) -> Fr { Fr::new(self.0 * o.1, self.1 * o.0) }
+    fn le(self, o: Fr) -> bool { self.0 * o.1 <= o.0 * self.1 }
+    fn abs(self) -> Fr { Fr(self.0.abs(), self.1) }
+}
+fn det3(m: &Mat<i64>) -> i128 {
+    let e = |i: usize, j: usize| m[(i, j)] as i128;
+    e(0,0) * (e(1,1) * e(2,2) - e(1,2) * e(2,1)) - e(0,1) * (e(1,0) * e(2,2) - e(1,2) * e(2,0)) + e(0,2) * (e(1,0) * e(2,1) - e(1,1) * e(2,0))
+}
+pub fn lll_small(s: &mut Src) -> R {
+    let mut e = [0i64; 9];
+    for k in 0..9 { e[k] = s.small(-5, 5); }
+    let a = Mat::from_data((3, 3), e);
+    pre!(det3(&a) != 0);
+    reach!();
+    let (b, p) = lll(&a, true);
+    let p = p.unwrap();
+    ob!(&p * &a == b, "lll::B==P.A");
+    ob!(det3(&p).abs() == 1, "lll::P-unimodular");
+    // exact Gram-Schmidt of the rows of B
+    let row = |i: usize| [Fr(b[(i, 0)] as i128, 1), Fr(b[(i, 1)] as i128, 1), Fr(b[(i, 2)] as i128, 1)];
+    let dot = |x: &[Fr; 3], y: &[Fr; 3]| x[0].mul(y[0]).add(x[1].mul(y[1])).add(x[2].mul(y[2]));
+    let mut bs: Vec<[Fr; 3]> = vec![];
+    let mut mu = [[Fr(0, 1); 3]; 3];
+    for i in 0..3 {
+        let mut v = row(i);
+        for j in 0..i {
+            mu[i][j] = dot(&row(i), &bs[j]).div(dot(&bs[j], &bs[j]));
+            for c in 0..3 { v[c] = v[c].sub(mu[i][j].mul(bs[j][c])); }
+        }
+        bs.push(v);
+    }
+    for i in 0..3 { for j in 0..i { ob!(mu[i][j].abs().le(Fr(1, 2)), "lll::size-reduced(|mu_ij|<=1/2)"); } }
+    for k in 1..3 {
+        let lhs = dot(&bs[k], &bs[k]);
+        let rhs = Fr(3, 4).sub(mu[k][k - 1].mul(mu[k][k - 1])).mul(dot(&bs[k - 1], &bs[k - 1]));
+        ob!(rhs.le(lhs), "lll::Lovasz-condition(alpha=3/4)");
+    }
+    Ok(())
+}
+crate::harness_table!(SNF: snf_small [unwind 4], lll_small [unwind 4]);
